@@ -39,7 +39,11 @@ Inductive inl :=
 | IMath (t : list N)
 | IQuote (l : list inl)                 (* "..." *)
 | IDash2 | IDash3 | IEllipsis
-| IApos (a b : list N).                 (* a'b inside a word *)
+| IApos (a b : list N)                  (* a'b inside a word *)
+| IRefLink (txt : list inl) (label url : list N) (title : option (list N))   (* [txt][label], defined at the end *)
+| IRefImage (alt label url : list N) (title : option (list N))               (* ![alt][label] *)
+| IFoot (k : nat)                       (* call of footnote number k of the document (used once) *)
+| ISoft.                                (* line break inside a paragraph that is not a hard break *)
 
 Inductive align := ALeft | ACenter | ARight | ANone.
 (* a table cell: content and the number of columns it spans *)
@@ -54,7 +58,10 @@ Inductive blk :=
 | BIndented (lines : list (list N))
 | BQuote (paras : list (list inl))                         (* a quote of paragraphs *)
 | BList (ordered loose : bool) (items : list (list inl * list (list inl)))   (* item text, nested tight bullet list *)
-| BTable (aligns : list align) (header : list cell) (rows : list (list cell)).
+| BTable (aligns : list align) (header : list cell) (rows : list (list cell))
+| BFigure (alt url : list N) (title : option (list N))        (* an image alone in its paragraph *)
+| BDefList (items : list (list inl * list (list inl)))         (* term, definitions *)
+| BHtml (lines : list (list N)).                               (* a raw HTML block is passed through *)
 
 Record opts := mkopts { smart : bool; compat : bool }.
 (* spelling: bullet marker, emphasis character, leading spaces before block markers (0..3), closing #,
@@ -68,6 +75,10 @@ Definition hesc (t : list N) : list N := flat_map hesc1 t.
 
 Section Render.
 Variable o : opts.
+Variable env : list nat.                (* footnotes in order of first use *)
+
+Fixpoint pos_of (k : nat) (l : list nat) : nat := match l with [] => O | x :: r => if Nat.eqb x k then 1%nat else S (pos_of k r) end.
+Definition digit' (n : nat) : list N := [N.of_nat (48 + n)].
 
 Fixpoint rinl (i : inl) : list N :=
   match i with
@@ -96,6 +107,18 @@ Fixpoint rinl (i : inl) : list N :=
   | IDash3 => if smart o then str "&#8212;" else str "---"
   | IEllipsis => if smart o then str "&#8230;" else str "..."
   | IApos a b => a ++ (if smart o then str "&#8217;" else str "'") ++ b
+  | IRefLink txt _ url title =>
+    str "<a href=""" ++ hesc url ++ str """" ++
+    (match title with Some t => str " title=""" ++ hesc t ++ str """" | None => [] end) ++ str ">" ++
+    join [32] (map rinl txt) ++ str "</a>"
+  | IRefImage alt label url title =>
+    str "<img src=""" ++ hesc url ++ str """ alt=""" ++ hesc alt ++ str """" ++
+    (if compat o then [] else str " id=""" ++ label_from_string label ++ str """") ++
+    (match title with Some t => str " title=""" ++ hesc t ++ str """" | None => [] end) ++ str " />"
+  | IFoot k =>
+    let n := digit' (pos_of k env) in
+    str "<a href=""#fn:" ++ n ++ str """ id=""fnref:" ++ n ++ str """ title=""see footnote"" class=""footnote""><sup>" ++ n ++ str "</sup></a>"
+  | ISoft => NL
   end.
 
 (* inline elements of one run are separated by single blanks; a hard break ends its line *)
@@ -104,7 +127,10 @@ Fixpoint rinls (l : list inl) : list N :=
   | [] => []
   | [i] => rinl i
   | IBreak :: r => rinl IBreak ++ rinls r
+  | ISoft :: r => rinl ISoft ++ rinls r
   | i :: ((IBreak :: _) as r) => rinl i ++ rinls r
+  | i :: ((ISoft :: _) as r) => rinl i ++ rinls r
+  | i :: ((IFoot _ :: _) as r) => rinl i ++ rinls r
   | i :: r => rinl i ++ [32] ++ rinls r
   end.
 End Render.
@@ -135,6 +161,10 @@ Fixpoint sinl (i : inl) : list N :=
   | IQuote l => [34] ++ join [32] (map sinl l) ++ [34]
   | IDash2 => str "--" | IDash3 => str "---" | IEllipsis => str "..."
   | IApos a b => a ++ [39] ++ b
+  | IRefLink txt label _ _ => [91] ++ join [32] (map sinl txt) ++ str "][" ++ label ++ [93]
+  | IRefImage alt label _ _ => str "![" ++ alt ++ str "][" ++ label ++ [93]
+  | IFoot k => str "[^fn" ++ [N.of_nat (48 + k)] ++ [93]
+  | ISoft => [10]
   end.
 
 Fixpoint sinls (l : list inl) : list N :=
@@ -142,7 +172,10 @@ Fixpoint sinls (l : list inl) : list N :=
   | [] => []
   | [i] => sinl i
   | IBreak :: r => sinl IBreak ++ sinls r
+  | ISoft :: r => sinl ISoft ++ sinls r
   | i :: ((IBreak :: _) as r) => sinl i ++ sinls r
+  | i :: ((ISoft :: _) as r) => sinl i ++ sinls r
+  | i :: ((IFoot _ :: _) as r) => sinl i ++ sinls r
   | i :: r => sinl i ++ [32] ++ sinls r
   end.
 End Spell.
@@ -160,22 +193,23 @@ Definition style_of (a : align) : list N :=
 Section RenderB.
 Variable o : opts.
 Variable sp : spelling.      (* the id of a heading is computed from its source text *)
+Variable env : list nat.     (* footnotes in order of first use *)
 
 Definition heading (level : nat) (l : list inl) : list N :=
   str "<h" ++ digit level ++
   (if compat o then [] else str " id=""" ++ label_from_string (sinls sp l) ++ str """") ++ str ">" ++
-  rinls o l ++ str "</h" ++ digit level ++ str ">".
+  rinls o env l ++ str "</h" ++ digit level ++ str ">".
 
 Definition code_block (lang : list N) (lines : list (list N)) : list N :=
   str "<pre><code" ++ (match lang with [] => [] | _ => str " class=""" ++ lang ++ str """" end) ++ str ">" ++
   flat_map (fun ln => hesc ln ++ NL) lines ++ str "</code></pre>".
 
 Definition tight_items (items : list (list inl)) : list N :=
-  flat_map (fun it => str "<li>" ++ rinls o it ++ str "</li>" ++ NL) items.
+  flat_map (fun it => str "<li>" ++ rinls o env it ++ str "</li>" ++ NL) items.
 
 Definition item (loose : bool) (it : list inl * list (list inl)) : list N :=
   let '(txt, sub) := it in
-  str "<li>" ++ (if loose then str "<p>" ++ rinls o txt ++ str "</p>" else rinls o txt) ++
+  str "<li>" ++ (if loose then str "<p>" ++ rinls o env txt ++ str "</p>" else rinls o env txt) ++
   (match sub with
    | [] => []
    | _ => NL ++ NL ++ str "<ul>" ++ NL ++ tight_items sub ++ str "</ul>"
@@ -188,7 +222,7 @@ Fixpoint row_cells (tag : list N) (aligns : list align) (cells : list cell) : li
   | (c, span) :: r =>
     [9; 60] ++ tag ++ style_of (hd ANone aligns) ++
     (if Nat.ltb 1 span then str " colspan=""" ++ digit span ++ str """" else []) ++
-    str "> " ++ rinls o c ++ str " </" ++ tag ++ str ">" ++ NL ++
+    str "> " ++ rinls o env c ++ str " </" ++ tag ++ str ">" ++ NL ++
     row_cells tag (skipn span aligns) r
   end.
 Definition row (tag : list N) (aligns : list align) (cells : list cell) : list N :=
@@ -196,14 +230,14 @@ Definition row (tag : list N) (aligns : list align) (cells : list cell) : list N
 
 Definition rblk (b : blk) : list N :=
   match b with
-  | BPara l => str "<p>" ++ rinls o l ++ str "</p>"
+  | BPara l => str "<p>" ++ rinls o env l ++ str "</p>"
   | BAtx n l => heading n l
   | BSetext n l => heading n l
   | BHr => str "<hr />"
   | BFenced lang lines => code_block lang lines
   | BIndented lines => code_block [] lines
   | BQuote paras =>
-    str "<blockquote>" ++ NL ++ join (NL ++ NL) (map (fun p => str "<p>" ++ rinls o p ++ str "</p>") paras) ++ NL ++ str "</blockquote>"
+    str "<blockquote>" ++ NL ++ join (NL ++ NL) (map (fun p => str "<p>" ++ rinls o env p ++ str "</p>") paras) ++ NL ++ str "</blockquote>"
   | BList ordered loose items =>
     (if ordered then str "<ol>" else str "<ul>") ++ NL ++ flat_map (item loose) items ++ (if ordered then str "</ol>" else str "</ul>")
   | BTable aligns header rows =>
@@ -211,6 +245,16 @@ Definition rblk (b : blk) : list N :=
     flat_map (fun a => str "<col" ++ style_of a ++ (match a with ANone => str " />" | _ => str "/>" end) ++ NL) aligns ++
     str "</colgroup>" ++ NL ++ NL ++ str "<thead>" ++ NL ++ row (str "th") aligns header ++ str "</thead>" ++ NL ++ NL ++
     str "<tbody>" ++ NL ++ flat_map (row (str "td") aligns) rows ++ str "</tbody>" ++ NL ++ str "</table>"
+  | BFigure alt url title =>
+    str "<figure>" ++ NL ++ str "<img src=""" ++ hesc url ++ str """ alt=""" ++ hesc alt ++ str """" ++
+    (match title with Some t => str " title=""" ++ hesc t ++ str """" | None => [] end) ++ str " />" ++ NL ++
+    str "<figcaption>" ++ hesc alt ++ str "</figcaption>" ++ NL ++ str "</figure>"
+  | BDefList items =>
+    str "<dl>" ++ NL ++
+    join (NL ++ NL) (map (fun it => str "<dt>" ++ rinls o env (fst it) ++ str "</dt>" ++ NL ++
+                                    join (NL ++ NL) (map (fun d => str "<dd>" ++ rinls o env d ++ str "</dd>") (snd it))) items) ++
+    NL ++ str "</dl>"
+  | BHtml lines => join NL lines
   end.
 
 (* rendering is compositional by construction: blocks are rendered one by one and separated by an empty line *)
@@ -253,6 +297,11 @@ Definition sblk (b : blk) : list N :=
   | BTable aligns header rows =>
     srow header ++ NL ++ [124] ++ flat_map (fun a => align_text a ++ [124]) aligns ++
     flat_map (fun r => NL ++ srow r) rows
+  | BFigure alt url title =>
+    str "![" ++ alt ++ str "](" ++ url ++ (match title with Some t => str " """ ++ t ++ str """" | None => [] end) ++ [41]
+  | BDefList items =>
+    join (NL ++ NL) (map (fun it => sinls sp (fst it) ++ flat_map (fun d => NL ++ str ": " ++ sinls sp d) (snd it)) items)
+  | BHtml lines => join NL lines
   end.
 
 Definition to_crlf (t : list N) : list N := flat_map (fun b => if b =? 10 then [13; 10] else [b]) t.
@@ -260,3 +309,69 @@ Definition spell (d : list blk) : list N :=
   let t := join (NL ++ NL) (map sblk d) ++ NL in
   if crlf sp then to_crlf t else t.
 End SpellB.
+
+(* ---- whole documents: blocks, the footnotes they call (each at most once) and the link definitions *)
+Record document := mkdoc { blocks : list blk; notes : list (list inl) }.
+
+Fixpoint ifoots (i : inl) : list nat :=
+  match i with
+  | IFoot k => [k]
+  | IEmph l | IStrong l | IQuote l => flat_map ifoots l
+  | ILink txt _ _ | IRefLink txt _ _ _ => flat_map ifoots txt
+  | _ => []
+  end.
+Definition bfoots (b : blk) : list nat :=
+  match b with
+  | BPara l => flat_map ifoots l
+  | BQuote ps => flat_map (flat_map ifoots) ps
+  | _ => []
+  end.
+
+Definition ldef := (list N * list N * option (list N))%type.      (* label, url, title *)
+Fixpoint idefs (i : inl) : list ldef :=
+  match i with
+  | IRefLink txt lab url title => flat_map idefs txt ++ [(lab, url, title)]
+  | IRefImage _ lab url title => [(lab, url, title)]
+  | IEmph l | IStrong l | IQuote l => flat_map idefs l
+  | ILink txt _ _ => flat_map idefs txt
+  | _ => []
+  end.
+Definition bdefs (b : blk) : list ldef :=
+  match b with
+  | BPara l | BAtx _ l | BSetext _ l => flat_map idefs l
+  | BQuote ps => flat_map (flat_map idefs) ps
+  | BList _ _ items => flat_map (fun it => flat_map idefs (fst it) ++ flat_map (flat_map idefs) (snd it)) items
+  | BDefList items => flat_map (fun it => flat_map idefs (fst it) ++ flat_map (flat_map idefs) (snd it)) items
+  | _ => []
+  end.
+
+Definition doc_env (d : document) : list nat := flat_map bfoots (blocks d).
+
+Definition note_entry (o : opts) (env : list nat) (d : document) (k : nat) : list N :=
+  let n := digit (pos_of k env) in
+  str "<li id=""fn:" ++ n ++ str """>" ++ NL ++ str "<p>" ++ rinls o env (nth k (notes d) []) ++
+  str " <a href=""#fnref:" ++ n ++ str """ title=""return to body"" class=""reversefootnote"">&#160;&#8617;&#xfe0e;</a></p>" ++ NL ++
+  str "</li>" ++ NL ++ NL.
+
+Definition render_doc (o : opts) (sp : spelling) (d : document) : list N :=
+  let env := doc_env d in
+  render o sp env (blocks d) ++
+  match env with
+  | [] => []
+  | _ => NL ++ NL ++ str "<div class=""footnotes"">" ++ NL ++ str "<hr />" ++ NL ++ str "<ol>" ++ NL ++ NL ++
+         flat_map (note_entry o env d) env ++ str "</ol>" ++ NL ++ str "</div>"
+  end.
+
+Definition spell_def (x : ldef) : list N :=
+  let '(lab, url, title) := x in
+  [91] ++ lab ++ str "]: " ++ url ++ (match title with Some t => str " """ ++ t ++ str """" | None => [] end).
+
+Fixpoint number_notes (k : nat) (l : list (list inl)) : list (nat * list inl) :=
+  match l with [] => [] | x :: r => (k, x) :: number_notes (S k) r end.
+
+Definition spell_doc (sp : spelling) (d : document) : list N :=
+  let body := join (NL ++ NL) (map (sblk sp) (blocks d)) in
+  let defs := map spell_def (flat_map bdefs (blocks d)) in
+  let fns := map (fun kn => str "[^fn" ++ [N.of_nat (48 + fst kn)] ++ str "]: " ++ sinls sp (snd kn)) (number_notes 0 (notes d)) in
+  let t := join (NL ++ NL) (body :: defs ++ fns) ++ NL in
+  if crlf sp then to_crlf t else t.
